@@ -406,7 +406,12 @@ func (l *lexer) next() rune {
 }
 
 func (l *lexer) nextToken() Token {
-	return <-l.tokens
+	tok, ok := <-l.tokens
+	if !ok {
+		// the lexer has stopped: keep answering EOF, so that no parser loop waits for more tokens
+		return Token{Location: l.loc, Kind: EOF, EndAt: len(l.input)}
+	}
+	return tok
 }
 
 func (l *lexer) peek() rune {
